@@ -4,8 +4,10 @@ package c17
 import (
 	"encoding/json"
 	"fmt"
+	"regexp"
 	"strings"
 	"time"
+	"unicode"
 
 	"github.com/nyaruka/gocommon/dates"
 	"github.com/nyaruka/goflow/envs"
@@ -53,6 +55,7 @@ type engRes struct {
 }
 
 var engCache = map[string]*engRes{}
+var evalPanics int64
 
 func engineEval(exprText string) *engRes {
 	if r, ok := engCache[exprText]; ok {
@@ -107,7 +110,10 @@ func engineEvalTemplate(legacyTemplate string, single bool) *engRes {
 	}
 	var v types.XValue
 	if p := mc.Guard(func() { v, _, _ = evaluator.TemplateValue(env, engineCtx, r.Migrated) }); p != "" {
-		r.Symptom, r.Detail = "panic", p
+		// a panic while *evaluating* (mod(x, 0)) is the engine's totality problem (C04/C05), not a
+		// migration defect: the legacy expression is an error as well. Counted, treated as an error value.
+		evalPanics++
+		r.Symptom, r.Detail = "error", "evaluation panics: "+strings.SplitN(p, "\n", 2)[0]
 		return r
 	}
 	r.V = v
@@ -163,6 +169,10 @@ func agree(rv Val, x types.XValue) bool {
 		}
 		n, xerr := types.ToXNumber(env, x)
 		if xerr != nil {
+			return false
+		}
+		if t, isText := x.(*types.XText); isText && !rv.Approx && t.Native() != rv.N.String() {
+			// numeric text must read as the number reads ("2020" is 2020, "08" is not 8 once joined into text)
 			return false
 		}
 		if rv.Approx {
@@ -239,8 +249,13 @@ func literalOf(x types.XValue) (*E, bool) {
 		return num(s), true
 	case *types.XText:
 		s := v.Native()
-		if strings.ContainsAny(s, "\\\n\r\t") || len(s) > 200 {
+		if len(s) > 200 {
 			return nil, false
+		}
+		for _, r := range s {
+			if r == '\\' || !unicode.IsPrint(r) {
+				return nil, false
+			}
 		}
 		return str(`"` + strings.ReplaceAll(s, `"`, `""`) + `"`), true
 	case *types.XBoolean:
@@ -253,8 +268,12 @@ func literalOf(x types.XValue) (*E, bool) {
 		return dateLit(d.Year, int(d.Month), d.Day), true
 	case *types.XDateTime:
 		t := v.Native().In(time.UTC)
-		if t.Hour() != 0 || t.Minute() != 0 || t.Second() != 0 || t.Nanosecond() != 0 {
+		if t.Nanosecond() != 0 {
 			return nil, false
+		}
+		if t.Hour() != 0 || t.Minute() != 0 || t.Second() != 0 {
+			// date + time of day; only usable as a function argument (see fitsLiteral)
+			return bin("+", dateLit(t.Year(), int(t.Month()), t.Day()), call("TIME", num(fmt.Sprint(t.Hour())), num(fmt.Sprint(t.Minute())), num(fmt.Sprint(t.Second())))), true
 		}
 		return dateLit(t.Year(), int(t.Month()), t.Day()), true
 	case *types.XTime:
@@ -267,8 +286,60 @@ func literalOf(x types.XValue) (*E, bool) {
 	return nil, false
 }
 
+// fitsLiteral: may lit stand for operand pos of parent? A datetime literal (DATE + TIME) is only
+// written as a bare function argument.
+func fitsLiteral(parent *E, pos int, lit *E) bool {
+	if lit.K == "bin" {
+		return parent.K == "call"
+	}
+	return fitsBare(parent, pos, lit)
+}
+
 func dateLit(y, m, d int) *E {
 	return call("DATE", num(fmt.Sprint(y)), num(fmt.Sprint(m)), num(fmt.Sprint(d)))
+}
+
+// litFromRef writes a reference value as a legacy expression denoting it.
+func litFromRef(v Val) (*E, bool) {
+	switch v.T {
+	case 'N':
+		if v.Approx {
+			return nil, false
+		}
+		return literalOf(types.NewXNumber(v.N))
+	case 'S':
+		return literalOf(types.NewXText(v.S))
+	case 'B':
+		return literalOf(types.NewXBoolean(v.B))
+	case 'D':
+		return literalOf(types.NewXDateTime(v.D))
+	case 'T':
+		return call("TIME", num(fmt.Sprint(v.H)), num(fmt.Sprint(v.M)), num(fmt.Sprint(v.Sec))), true
+	}
+	return nil, false
+}
+
+// variantOf returns e with its nested operand replaced by a literal of the value the engine gives
+// the operand alone (the substitution of the compositionality oracle).
+func variantOf(e *E) (*E, bool) {
+	pos, child := nonLeafChild(e)
+	if child == nil {
+		return nil, false
+	}
+	cr := engineEval(child.Text())
+	if cr.Symptom != "" {
+		return nil, false
+	}
+	lit, ok := literalOf(cr.V)
+	if !ok {
+		return nil, false
+	}
+	variant := e.clone()
+	variant.A[pos] = lit
+	if !fitsLiteral(variant, pos, lit) {
+		return nil, false
+	}
+	return variant, true
 }
 
 // sameEngineValue compares two engine results for the compositionality oracle.
@@ -286,7 +357,7 @@ func sameEngineValue(a, b *engRes) bool {
 			return true
 		}
 		x, y := an.Native().InexactFloat64(), bn.Native().InexactFloat64()
-		return closeTo(x, y) || closeRel(x, y, 1e-9)
+		return closeRel(x, y, 1e-6)
 	}
 	_, aIsB := a.V.(*types.XBoolean)
 	_, bIsB := b.V.(*types.XBoolean)
@@ -389,7 +460,7 @@ func computeVerdict(e *E, text string) *verdict {
 			if lit, ok := literalOf(cr.V); ok {
 				variant := e.clone()
 				variant.A[pos] = lit
-				if fitsBare(variant, pos, lit) {
+				if fitsLiteral(variant, pos, lit) {
 					vr := engineEval(variant.Text())
 					v.Decided = true
 					if !sameEngineValue(er, vr) {
@@ -497,53 +568,216 @@ func signature(root *E) (key string, culprit *E, v *verdict) {
 	x := chain[ci]
 	v = verdictOf(x)
 	sym := v.Symptom
-
-	// string literal forms
-	if anyStrLeaf(x, func(s string) bool { return strings.Contains(s, `\`) }) {
-		y := mapStrLeaves(x, func(s string) string { return strings.ReplaceAll(s, `\`, `/`) })
-		if !verdictOf(y).Fail {
-			return "literal:backslash-unescaped", x, v
-		}
-	}
-	if anyStrLeaf(x, func(s string) bool { return len(s) > 2 && strings.Contains(s[1:len(s)-1], `""`) }) {
-		y := mapStrLeaves(x, func(s string) string { return `"` + strings.ReplaceAll(s[1:len(s)-1], `""`, `'`) + `"` })
-		if !verdictOf(y).Fail {
-			return "literal:doubled-quote:" + sym, x, v
-		}
-	}
-
+	xm := engineEval(x.Text())
 	pos, child := nonLeafChild(x)
+
+	literalCause := func() string {
+		if anyStrLeaf(x, func(s string) bool { return strings.Contains(s, `\`) }) {
+			y := mapStrLeaves(x, func(s string) string { return strings.ReplaceAll(s, `\`, `/`) })
+			if !verdictOf(y).Fail {
+				return "literal:backslash-unescaped"
+			}
+		}
+		if anyStrLeaf(x, func(s string) bool { return len(s) > 2 && strings.Contains(s[1:len(s)-1], `""`) }) {
+			y := mapStrLeaves(x, func(s string) string { return `"` + strings.ReplaceAll(s[1:len(s)-1], `""`, `'`) + `"` })
+			if !verdictOf(y).Fail {
+				return "literal:doubled-quote:" + sym
+			}
+		}
+		return ""
+	}
+
+	if x.K == "par" {
+		return "nesting:parentheses:" + child.construct() + ":" + sym, x, v
+	}
+	// + and -: which of the migration's forms was chosen for these operand types?
+	if x.K == "bin" && (x.V == "+" || x.V == "-") && !verdictOf(x.A[0]).Fail && !verdictOf(x.A[1]).Fail {
+		lt, rt := operandType(x.A[0]), operandType(x.A[1])
+		form := additionForm(xm.Migrated)
+		var expected []string
+		switch {
+		case lt == "number" && rt == "number":
+			expected = []string{"plain", "legacy_add"}
+		case (lt == "date" || lt == "datetime") && rt == "number":
+			expected = []string{"datetime_add-days", "legacy_add"}
+		case lt == "date" && rt == "time" && x.V == "+":
+			expected = []string{"replace_time"}
+		case lt == "datetime" && rt == "time":
+			expected = []string{"datetime_add-minutes"}
+		}
+		if expected != nil {
+			found := false
+			for _, f := range expected {
+				found = found || f == form
+			}
+			if !found {
+				key = fmt.Sprintf("addition:%s%s%s:migrated-as-%s", lt, x.V, rt, form)
+				if lt == "number" && rt == "number" {
+					key = "addition:number-and-number:migrated-as-" + form
+					lead := "other"
+					if m := leadingCall.FindStringSubmatch(strings.TrimPrefix(engineEval(x.A[0].Text()).Migrated, "@(")); m != nil {
+						lead = m[1]
+					}
+					key += ":left-operand-begins-with-" + lead
+				}
+				return key, x, v
+			}
+			if form == "datetime_add-minutes" && xm.Symptom == "" && sym == "not-compositional" {
+				if variant, ok := variantOf(x); ok {
+					if vr := engineEval(variant.Text()); vr.Symptom == "" {
+						a, e1 := types.ToXDateTime(env, xm.V)
+						b, e2 := types.ToXDateTime(env, vr.V)
+						sec := time.Duration(secondsOf(x.A[1])) * time.Second
+						if e1 == nil && e2 == nil && sec != 0 && (b.Native().Sub(a.Native()) == sec || a.Native().Sub(b.Native()) == sec) {
+							return "addition:datetime" + x.V + "time:seconds-dropped", x, v
+						}
+					}
+				}
+			}
+			if form == "datetime_add-minutes" && xm.Symptom == "" {
+				// only whole minutes of the time of day are added
+				if whole, o := refEval(x); o == "" && whole.T == 'D' {
+					if dt, xerr := types.ToXDateTime(env, xm.V); xerr == nil {
+						t := dt.Native().In(time.UTC)
+						sec := time.Duration(secondsOf(x.A[1])) * time.Second
+						want := whole.D.Add(-sec)
+						if x.V == "-" {
+							want = whole.D.Add(sec)
+						}
+						if sec != 0 && t.Equal(want) {
+							return "addition:datetime" + x.V + "time:seconds-dropped", x, v
+						}
+					}
+				}
+			}
+		}
+	}
 	if child == nil {
+		if k := literalCause(); k != "" {
+			return k, x, v
+		}
 		return "value:" + x.construct() + ":" + sym, x, v
 	}
 	posName := fmt.Sprintf("arg%d", pos+1)
 	if x.K == "bin" {
 		posName = []string{"left", "right"}[pos]
-	} else if x.K == "neg" || x.K == "par" {
+	} else if x.K == "neg" {
 		posName = "operand"
 	}
-	if x.K == "par" {
-		return "nesting:parentheses:" + child.construct() + ":" + sym, x, v
+	// does putting the operand in parentheses (in the legacy source) repair it, and does the
+	// operand's own migration carry a bare operator? then grouping was lost in an expansion
+	if child.K != "par" {
+		wrapped := x.clone()
+		wrapped.A[pos] = par(wrapped.A[pos])
+		if !verdictOf(wrapped).Fail && hasTopLevelOperator(engineEval(child.Text()).Migrated) {
+			if x.K == "call" {
+				// a function's expansion must keep each parameter together
+				return "expansion:" + x.construct() + ":param-has-looser-operator", x, v
+			}
+			// x is an operator: the nearest function below whose expansion is a bare operator expression
+			for n := child; n != nil; _, n = nonLeafChild(n) {
+				if n.K == "call" && hasTopLevelOperator(engineEval(n.Text()).Migrated) {
+					return "expansion:" + n.construct() + ":under-tighter-operator", x, v
+				}
+				if n.K == "call" {
+					break
+				}
+			}
+			return "expansion:" + x.construct() + ":operand-has-looser-operator", x, v
+		}
+	}
+	if k := literalCause(); k != "" {
+		return k, x, v
+	}
+	// is it x's own meaning rather than the nesting? (the operand replaced by a literal of its value)
+	var lits []*E
+	if rv, o := refEval(child); o == "" {
+		if lit, ok := litFromRef(rv); ok {
+			lits = append(lits, lit)
+		}
+	}
+	if cr := engineEval(child.Text()); cr.Symptom == "" {
+		if lit, ok := literalOf(cr.V); ok {
+			lits = append(lits, lit)
+		}
+	}
+	for _, lit := range lits {
+		variant := x.clone()
+		variant.A[pos] = lit
+		if fitsLiteral(variant, pos, lit) && verdictOf(variant).Fail && verdictOf(variant).Symptom == sym {
+			return "value:" + x.construct() + ":" + sym, x, v
+		}
 	}
 	if child.K == "par" {
 		return "nesting:" + outerClass(x) + ":" + posName + ":parenthesised-" + child.A[0].construct() + ":" + sym, x, v
 	}
-	// does putting the operand in parentheses (in the legacy source) repair it, and does the
-	// operand's own migration carry a bare operator? then grouping was lost in an expansion
-	wrapped := x.clone()
-	wrapped.A[pos] = par(wrapped.A[pos])
-	if !verdictOf(wrapped).Fail && hasTopLevelOperator(engineEval(child.Text()).Migrated) {
-		switch {
-		case x.K == "call":
-			return "expansion:" + x.construct() + ":param-has-looser-operator", x, v
-		case child.K == "call":
-			return "expansion:" + child.construct() + ":under-tighter-operator", x, v
-		default:
-			return "expansion:" + x.construct() + ":operand-has-looser-operator", x, v
-		}
-	}
 	return "nesting:" + outerClass(x) + ":" + posName + ":" + child.construct() + ":" + sym, x, v
 }
+
+func secondsOf(e *E) int {
+	if v, o := refEval(e); o == "" && v.T == 'T' {
+		return v.Sec
+	}
+	return 0
+}
+
+// operandType names what an operand of + / - denotes: by the reference model, else by the type
+// of the engine's value for the operand alone.
+func operandType(e *E) string {
+	if v, o := refEval(e); o == "" {
+		switch v.T {
+		case 'N':
+			return "number"
+		case 'S':
+			return "text"
+		case 'B':
+			return "boolean"
+		case 'T':
+			return "time"
+		case 'D':
+			if v.HasTod {
+				return "datetime"
+			}
+			return "date"
+		}
+	}
+	if r := engineEval(e.Text()); r.Symptom == "" {
+		switch r.V.(type) {
+		case *types.XNumber:
+			return "number"
+		case *types.XDate:
+			return "date"
+		case *types.XDateTime:
+			return "datetime"
+		case *types.XTime:
+			return "time"
+		case *types.XText:
+			return "text"
+		}
+	}
+	return "unknown"
+}
+
+// additionForm names the form the migration chose for a + / - expression.
+func additionForm(migrated string) string {
+	m := strings.TrimSuffix(strings.TrimPrefix(migrated, "@("), ")")
+	m = strings.TrimPrefix(m, "format_date(")
+	switch {
+	case strings.HasPrefix(m, "datetime_add(") && strings.Contains(m[len(m)-6:], `"D"`):
+		return "datetime_add-days"
+	case strings.HasPrefix(m, "datetime_add(") && strings.Contains(m[len(m)-6:], `"m"`):
+		return "datetime_add-minutes"
+	case strings.HasPrefix(m, "datetime_add("):
+		return "datetime_add"
+	case strings.HasPrefix(m, "replace_time("):
+		return "replace_time"
+	case strings.HasPrefix(m, "legacy_add("):
+		return "legacy_add"
+	}
+	return "plain"
+}
+
+var leadingCall = regexp.MustCompile(`^(\w+)\(`)
 
 // ---- replay ---------------------------------------------------------------------------------
 
@@ -730,6 +964,7 @@ func run(c *mc.Ctx) {
 			}
 		}
 	}
+	c.Add("engine_panics_while_evaluating_counted_as_errors", evalPanics)
 	// (3) templates: text around and between expressions
 	for _, tc := range templateCases() {
 		idx++
